@@ -111,13 +111,14 @@ type c01Pipeline struct {
 // c01Tee sits between the ValidationFilter and the graph and counts what the filter dropped.
 type c01Tee struct {
 	sink    api.SyncerCallbacks
-	nilSeen map[string]bool // key string -> last value delivered to the graph was nil
+	lastNil []bool // per update of the last OnUpdates call: value reached the graph as nil
 }
 
 func (t *c01Tee) OnStatusUpdated(s api.SyncStatus) { t.sink.OnStatusUpdated(s) }
 func (t *c01Tee) OnUpdates(us []api.Update) {
+	t.lastNil = t.lastNil[:0]
 	for _, u := range us {
-		t.nilSeen[fmt.Sprint(u.Key)] = u.Value == nil
+		t.lastNil = append(t.lastNil, u.Value == nil)
 	}
 	t.sink.OnUpdates(us)
 }
@@ -128,7 +129,7 @@ func c01NewPipeline(name string, cv c01ConfVariant, tracing bool) *c01Pipeline {
 	p.es = calc.NewEventSequencer(&c01SeqConfig{})
 	p.es.Callback = p.onEvent
 	p.cg = calc.NewCalculationGraph(p.es, calc.NewLookupsCache(), conf, func() {})
-	p.tee = &c01Tee{sink: p.cg, nilSeen: map[string]bool{}}
+	p.tee = &c01Tee{sink: p.cg}
 	p.vf = calc.NewValidationFilter(p.tee, conf)
 	return p
 }
@@ -256,21 +257,48 @@ func c01ListContains(desc, prefix, item string) bool {
 
 func c01GenCase(t *rapid.T, mode string) *c01Case {
 	c := &c01Case{Classes: map[string]bool{}, Mode: mode}
-	c.Conf = rapid.SampledFrom(c01ConfVariants).Draw(t, "conf")
-	c.U = c01NewUniverse(c.Conf.SpoofingAllowed)
+	focus := rapid.SampledFrom([]string{"policy", "policy", "routes", "vxlan", "vxlan", "mixed", "small"}).Draw(t, "focus")
+	c.Classes["focus-"+focus] = true
+	confIdx := rapid.IntRange(0, len(c01ConfVariants)-1).Draw(t, "conf")
+	if (focus == "routes" && confIdx >= 3 && rapid.IntRange(0, 3).Draw(t, "confPreferVXLAN") > 0) || (focus == "vxlan" && confIdx >= 3) {
+		confIdx -= 3 // the first three variants have VXLAN on
+	}
+	c.Conf = c01ConfVariants[confIdx]
+	c.U = c01NewUniverse(c.Conf.SpoofingAllowed, ev.Known(c01SigBlockStale) && c.Conf.RouteSource == "CalicoIPAM", ev.Known(c01SigSameSubnetStale))
+	c.U.PreferVXLAN = focus == "vxlan"
 	nslots := len(c.U.Slots)
 
-	// Which slots are in play, and their candidate versions.
-	density := rapid.SampledFrom([]int{2, 3, 5}).Draw(t, "density") // in play with probability density/6
-	if mode == "churn" {
-		density = 2
+	// Which slots are in play, and their candidate versions.  A "focus" correlates the choice so that
+	// endpoints+profiles+policies+tiers (or nodes+tunnel config+pools+blocks) tend to coexist.
+	weight := func(class string) int { // slot in play with probability weight/6
+		policyish := map[string]int{"wep-local": 5, "wep-remote": 3, "hep-local": 3, "hep-remote": 2, "profile-rules": 4,
+			"profile-labels": 3, "tier": 4, "policy": 5, "netset": 3, "pool": 1, "block": 1, "node": 1, "hostcfg": 1}
+		routeish := map[string]int{"wep-local": 2, "wep-remote": 2, "hep-local": 1, "hep-remote": 1, "profile-rules": 1,
+			"profile-labels": 1, "tier": 1, "policy": 1, "netset": 1, "pool": 5, "block": 5, "node": 6, "hostcfg": 6}
+		w := 3
+		switch focus {
+		case "policy":
+			w = policyish[class]
+		case "routes", "vxlan":
+			w = routeish[class]
+		case "small":
+			w = 1
+		}
+		if mode == "churn" && w > 1 {
+			if w >= 5 {
+				w--
+			} else {
+				w = (w + 1) / 2
+			}
+		}
+		return w
 	}
 	c.Vers = make([][]c01Ver, nslots)
 	c.Final = make([]int, nslots)
 	var used []int
 	for i, s := range c.U.Slots {
 		c.Final[i] = -2
-		if rapid.IntRange(0, 5).Draw(t, "use."+s.Name) >= density {
+		if rapid.IntRange(0, 5).Draw(t, "use."+s.Name) < 6-weight(s.Class) {
 			continue
 		}
 		nver := rapid.IntRange(1, 3).Draw(t, "nver."+s.Name)
@@ -282,11 +310,48 @@ func c01GenCase(t *rapid.T, mode string) *c01Case {
 	// Target state S.
 	for _, i := range used {
 		nver := len(c.Vers[i])
-		f := rapid.IntRange(-1, 2*nver-1).Draw(t, "final."+c.U.Slots[i].Name) // present twice as likely as absent*nver
-		if f >= nver {
-			f -= nver
+		mult := 3 // present with probability 3n/(3n+1)
+		switch c.U.Slots[i].Class {
+		case "node", "hostcfg", "pool", "block":
+			mult = 6
+		}
+		f := rapid.IntRange(-1, mult*nver-1).Draw(t, "final."+c.U.Slots[i].Name)
+		if f >= 0 {
+			f %= nver
 		}
 		c.Final[i] = f
+	}
+
+	// Known finding c01SigTierStale: reachable only when S lacks a tier that a policy of S names and
+	// the history ever delivered that tier with a non-empty default action.  Steer exactly those
+	// tiers to an empty default action.
+	if ev.Known(c01SigTierStale) {
+		for _, i := range used {
+			slot := c.U.Slots[i]
+			if slot.Class != "tier" || c.Final[i] != -1 {
+				continue
+			}
+			hazard := false
+			for _, j := range used {
+				if c.U.Slots[j].Class != "policy" || c.Final[j] < 0 || c.Vers[j][c.Final[j]].Invalid {
+					continue
+				}
+				for _, r := range c01RefsOf(c.U.Slots[j], c.Vers[j][c.Final[j]]) {
+					if r == slot.Name {
+						hazard = true
+					}
+				}
+			}
+			if !hazard {
+				continue
+			}
+			for v := range c.Vers[i] {
+				if c.Vers[i][v].Neutral != nil {
+					c.Vers[i][v] = c.Vers[i][v].Neutral()
+					c.U.Steered[c01SigTierStale] = true
+				}
+			}
+		}
 	}
 
 	// Random walk with named moves.
@@ -326,6 +391,22 @@ func c01GenCase(t *rapid.T, mode string) *c01Case {
 		}
 		sort.Ints(out)
 		return out
+	}
+	// Initial snapshot: most histories start like a real Felix does, with a populated datastore
+	// delivered in arbitrary order, so that teardown / churn moves have something to act on.
+	if len(used) > 0 && rapid.IntRange(0, 3).Draw(t, "startPopulated") > 0 {
+		c.Classes["initial-snapshot"] = true
+		order := used
+		if len(used) > 1 {
+			order = rapid.Permutation(used).Draw(t, "snapshotOrder")
+		}
+		for _, slot := range order {
+			nver := len(c.Vers[slot])
+			v := rapid.IntRange(-1, 3*nver-1).Draw(t, "initial."+c.U.Slots[slot].Name)
+			if v >= 0 {
+				emit(slot, v%nver, "snapshot")
+			}
+		}
 	}
 	maxWalk := ev.Scale(24, 40)
 	if mode == "churn" {
@@ -585,13 +666,12 @@ func c01Run(c *c01Case, tracing bool) *c01Result {
 				}
 			}
 			a.vf.OnUpdates(ups)
-			for _, u := range st.Updates {
+			for i, u := range st.Updates {
 				if u.Ver < 0 {
 					continue
 				}
-				dropped := a.tee.nilSeen[fmt.Sprint(c.U.Slots[u.Slot].Key)]
+				dropped := a.tee.lastNil[i]
 				inv := c.Vers[u.Slot][u.Ver].Invalid
-				// Only the last update of a key in the batch is visible in nilSeen; good enough for stats.
 				if dropped {
 					r.Dropped++
 				}
@@ -600,6 +680,12 @@ func c01Run(c *c01Case, tracing bool) *c01Result {
 				}
 				if !inv && dropped {
 					r.UnflaggedDr++
+					if os.Getenv("VERIF_C01_DEBUG") != "" {
+						fmt.Printf("DEBUG valid-but-dropped: %s %s\n", c.U.Slots[u.Slot].Name, c.Vers[u.Slot][u.Ver].Desc)
+					}
+				}
+				if inv && !dropped && os.Getenv("VERIF_C01_DEBUG") != "" {
+					fmt.Printf("DEBUG invalid-not-dropped: %s %s\n", c.U.Slots[u.Slot].Name, c.Vers[u.Slot][u.Ver].Desc)
 				}
 			}
 		case "flush":
@@ -746,6 +832,12 @@ func c01ClassList(c *c01Case, r *c01Result) []string {
 	if m.NumPolicyRefChg > 0 {
 		cls = append(cls, "stream-policy-ipset-refs-changed")
 	}
+	if m.NumVTEPRouteAddFlushes > 0 {
+		cls = append(cls, "stream-vtep-and-dependent-route-added-in-one-flush")
+	}
+	if m.NumVTEPRouteDelFlushes > 0 {
+		cls = append(cls, "stream-vtep-and-dependent-route-removed-in-one-flush")
+	}
 	if m.FlushReAdds > 0 {
 		cls = append(cls, "stream-remove-then-readd-in-one-flush")
 	}
@@ -794,6 +886,11 @@ func c01Property(rec *ev.Recorder, modes []string) func(t *rapid.T) {
 		}
 		nontrivial := c.Classes["teardown-with-live-referrer"] || c.Classes["revert"] || c.Classes["mid-history-flush"]
 		nontrivial = nontrivial && len(sa) > 0
+		for _, sig := range c01AllSigs {
+			if c.U.Steered[sig] {
+				rec.Excluded(sig)
+			}
+		}
 		rec.SizedCase(nontrivial, c01ShapeKey(c, r), c.NUpdates, c.sample, c01ClassList(c, r)...)
 	}
 }
@@ -823,6 +920,11 @@ func c02Property(rec *ev.Recorder, modes []string) func(t *rapid.T) {
 			}
 		}
 		nontrivial := (r.FlushChurn || r.A.mon.NumPolicyRefChg > 0) && r.A.mon.NumMessages > 0
+		for _, sig := range c01AllSigs {
+			if c.U.Steered[sig] {
+				rec.Excluded(sig)
+			}
+		}
 		rec.SizedCase(nontrivial, c01ShapeKey(c, r), c.NUpdates, c.sample, c01ClassList(c, r)...)
 	}
 }
